@@ -96,6 +96,72 @@ def reject_batch(I, st, items):
     st.ghost['pend'] = tuple(pending[-8:])
 
 
+# ----------------------------------------------------------------------------- counting measure
+def Fsym(I, st, r, n, off):
+    """F(off) = number of bytes equal to needle n in [region start, off): an uninterpreted,
+    monotone measure.  CountOf([a,b)) = F(b) - F(a), so adjacent pieces telescope in the
+    linear store.  Symbols are memoised per (region, needle, offset) up to entailed equality."""
+    s = st.store
+    memo = st.ghost.get('F', {})
+    nn, oo = s.nf(n), s.nf(off)
+    key = (r, nn, oo)
+    if key in memo:
+        return V(memo[key])
+    for (r2, n2, o2), sym in memo.items():
+        if r2 == r and s.nf(n2) == nn and s.entails_eq(o2 - oo):
+            return V(sym)
+    f = fresh('F')
+    s.add_le(-V(f))
+    memo = dict(memo)
+    memo[key] = f
+    st.ghost['F'] = memo
+    return V(f)
+
+
+def count_of(I, st, r, n, a, b):
+    """CountOf([a, b)) for a <= b, with the measure axiom 0 <= CountOf([a,b)) <= b - a"""
+    fb, fa = Fsym(I, st, r, n, b), Fsym(I, st, r, n, a)
+    d = fb - fa
+    if st.store.entails_le(a - b):
+        st.store.add_le(-d)
+        st.store.add_le(d - (b - a))
+    return d
+
+
+def byte_atom_needle(st, e):
+    """if e = +-(byte(r,off) - n): (r, off, n) else None"""
+    bytes_ = st.ghost.get('bytes')
+    if not bytes_:
+        return None
+    e = st.store.nf(e)
+    rev = {v: k for k, v in bytes_.items()}
+    for s_, c in e.t:
+        if c in (1, -1) and s_ in rev:
+            _, r, off = rev[s_]
+            rest = e - LinExpr.var(s_, c)
+            n = -rest if c == 1 else rest
+            return r, off, n
+    return None
+
+
+def on_eq(I, st, e):
+    """byte(r, off) == n assumed: exactly one match in [off, off+1)"""
+    x = byte_atom_needle(st, e)
+    if x:
+        r, off, n = x
+        st.store.add_eq(count_of(I, st, r, n, off, off + 1) - 1)
+
+
+def bool_as_count(I, st, atom):
+    """`(byte == n) as usize`  ==  CountOf([off, off+1), n)"""
+    if atom[0] == 'eq':
+        x = byte_atom_needle(st, atom[1])
+        if x:
+            r, off, n = x
+            return count_of(I, st, r, n, off, off + 1)
+    return None
+
+
 # ----------------------------------------------------------------------------- term shapes
 def cmpeq_leaf(t):
     """('cmpeq', splat(n), load(r, off, size)) in either order -> (n, r, off, size) or None"""
@@ -158,6 +224,7 @@ def on_ne(I, st, e):
                 rest = e - LinExpr.var(s_, c)
                 n = -rest if c == 1 else rest          # byte - n  or  n - byte
                 reject_batch(I, st, [(n, r, off, off + 1)])
+                st.store.add_eq(count_of(I, st, r, n, off, off + 1))      # no match in [off, off+1)
                 return
 
 
@@ -291,3 +358,26 @@ def check_search_post(I, inst, results, mode, ret_kind, index_base=None):
         I.ob('POST-MATCH', fr, loc, f'{tag}: Some(p) => byte at p is a needle', matched, det_m)
         I.ob('POST-FIRST' if mode == 'fwd' else 'POST-LAST', fr, loc,
              f"{tag}: Some(p) => no needle {'before' if mode == 'fwd' else 'after'} p", first, det_f)
+
+
+def check_count_post(I, inst, results):
+    fr = _Fr(inst)
+    tag = inst.path.rsplit('::', 1)[-1]
+    for st, ret in results:
+        sr = st.ghost.get('search')
+        if sr is None or not st.store.check_sat():
+            continue
+        s = st.store
+        r, start, end = sr['region'], sr['start'], sr['end']
+        if not isinstance(ret, IntV):
+            I.ob('POST-COUNT', fr, inst.loc, f'{tag}: count == number of matching bytes in the window', False, f"result untracked: {ret}")
+            continue
+        for n in sr['needles']:
+            if s.entails_le(end - start):
+                ok = s.entails_eq(ret.e)
+                det = '' if ok else f"empty window but result {s.nf(ret.e)}"
+            else:
+                want = count_of(I, st, r, n, start, end)
+                ok = s.entails_eq(ret.e - want)
+                det = '' if ok else f"result {s.nf(ret.e)} is not CountOf([start,end)) = {s.nf(want)} (a gap, an overlap or a different needle)"
+            I.ob('POST-COUNT', fr, inst.loc, f'{tag}: count == number of matching bytes in the window', ok, det)
